@@ -12,6 +12,10 @@ OUT = '/verif/mutants'
 
 # (name, properties, tier, file, old, new, comment)
 CAT = [
+    ('m_c08_serial_never_wraps', 'C08', 'quick', 'txdbus/message.py',
+     "            if DBusMessage._nextSerial > 0xFFFFFFFF:\n",
+     "            if DBusMessage._nextSerial > 0xFFFFFFFFFFFF:\n",
+     'the serial counter grows beyond 2^32-1: nothing can be marshalled any more (the original defect)'),
     ('m_c17_unsupported_interface_cached', 'C17', 'quick', 'txdbus/objects.py',
      "            else:\n                # nothing may be cached for this class on behalf of an\n                # object that does not support the property's interface\n                raise AttributeError(",
      "            else:\n                # nothing may be cached for this class on behalf of an\n                # object that does not support the property's interface\n                AttributeError(",
